@@ -302,7 +302,7 @@ def strategy(tier):
     from checks import c18p
     SIZE["steps"] = 8 if tier == "quick" else 16
     return st.one_of(virtual_cases(), virtual_cases(), virtual_cases(), virtual_cases(), partition_cases(), partition_cases(),
-                     c18p.pvirtual_cases(), c18p.ppartition_cases())
+                     c18p.pvirtual_cases(), c18p.ppartition_cases(), c18p.ppartition_cases())
 
 
 def setup(flavour, tier):
